@@ -1,4 +1,5 @@
 import Proofs.Observe.Causes
+import Proofs.Observe.StepSpec4
 /-!
 # C08 — Observe server: rising numbers, latest state sent, cancellation final, no leak
 
@@ -65,22 +66,39 @@ theorem C08_no_lost_wakeup {c : State} (h : Inv c) {t : Task} (ht : t ∈ c.task
     (t.phase = .fresh → t.runnable = true) :=
   ⟨(h.ok t ht).wTrig, (h.ok t ht).wOut, (h.ok t ht).wCancel, fun hf => ((h.ok t ht).wFresh hf).1⟩
 
-/-- **C08 (latest state sent).** Take any reachable state and any registered observation whose
-task is *not* in the ready queue (asyncio runs ready tasks, so this is where the task comes to
-rest).  Then either the resource's `render` is still running for it — and that render started at
-or after the last state change, or the change's trigger is pending and will be served when the
-render returns —, or the task is idle at `await servobs._trigger` with nothing pending and **the
-last notification it put on the pipe was rendered at or after the last state change**
-(`seen ≤ sentVer`; versions are what the renders sampled).  Earlier changes of a burst may have
-been coalesced; the last one never is. -/
+/-- **C08 (latest state sent).** Take any reachable state and any accepted observation whose task
+is *not* in the ready queue (asyncio runs ready tasks, so this is where the task comes to rest)
+and which has not ended — or has ended *by a successful last-marked notification* (`lastSent`: a
+2.xx response without Observe option put on the pipe by the notification loop after
+`trigger(..., is_last=True)`; see `C08_loop_end_kinds` for the other ways the loop ends).  Then
+* either the resource's `render` is still running for it — and that render started at or after
+  the last state change, or the change's trigger is pending and will be served when the render
+  returns —,
+* or the task is idle at `await servobs._trigger` with nothing pending and **the last
+  notification it put on the pipe was rendered at or after the last state change**
+  (`seen ≤ sentVer`; versions are what the renders sampled),
+* or the registration is over and **its final notification was rendered at or after the last
+  state change that reached the observation**: the rendering of a `render` call that started at
+  or after that change, or — when the last trigger handed over an explicit message — that very
+  message (whose version is the change's; a later trigger replaces an earlier pending one).
+Earlier changes of a burst may have been coalesced; the last one never is, also when it is the
+one that ends the registration.  (Before the `fix:` commit for C08 the third case was false: a
+rendering started *before* the last-marked change went out as the final response.) -/
 theorem C08_latest_state_sent {c : State} (h : Inv c) {t : Task} (ht : t ∈ c.tasks)
-    (hin : inSet t = true) (hq : t.runnable = false) :
+    (ho : t.observe = true) (ha : t.accepted = true)
+    (hlive : t.phase ≠ .done ∨ t.lastSent = true) (hq : t.runnable = false) :
     ((t.phase = .firstRender ∨ t.phase = .loopRender) ∧ t.renderOut = none ∧
         (t.seen ≤ t.renderVer ∨ t.trig.isSome = true)) ∨
-    (t.phase = .waitTrig ∧ t.trig = none ∧ t.seen ≤ t.sentVer) := by
+    (t.phase = .waitTrig ∧ t.trig = none ∧ t.seen ≤ t.sentVer) ∨
+    (t.phase = .done ∧ t.lastSent = true ∧ t.seen ≤ t.sentVer) := by
   have hok := h.ok t ht
-  simp only [inSet, Bool.and_eq_true, bne_iff_ne, ne_eq] at hin
-  have hcov := hok.cov hin.1.1 hin.1.2 hin.2
+  by_cases hdone : t.phase = .done
+  · have hl : t.lastSent = true := by
+      rcases hlive with hl | hl
+      · exact absurd hdone hl
+      · exact hl
+    exact Or.inr (Or.inr ⟨hdone, hl, (hok.fin hl).2.2 ha⟩)
+  have hcov := hok.cov ho ha hdone
   have hro : t.renderOut = none := by
     cases hr : t.renderOut with
     | none => rfl
@@ -92,10 +110,10 @@ theorem C08_latest_state_sent {c : State} (h : Inv c) {t : Task} (ht : t ∈ c.t
     | some v => have := hok.wTrig hp (by simp [htr]); rw [hq] at this; cases this
   cases hp : t.phase with
   | fresh => have := (hok.wFresh hp).1; rw [hq] at this; cases this
-  | done => exact absurd hp hin.2
-  | plainRender => exact absurd hp (hok.kind.1 hin.1.1)
+  | done => exact absurd hp hdone
+  | plainRender => exact absurd hp (hok.kind.1 ho)
   | waitTrig =>
-    right
+    right; left
     refine ⟨rfl, htr hp, ?_⟩
     rcases hcov with hc | hc | hc
     · simp [htr hp] at hc
@@ -115,6 +133,37 @@ theorem C08_latest_state_sent {c : State} (h : Inv c) {t : Task} (ht : t ∈ c.t
     · exact Or.inr hc
     · exact Or.inl hc.2
     · simp [hp] at hc
+
+/-- **C08 (every way the notification loop ends by itself).** Take any reachable state and a task
+that is in its notification loop (awaiting the trigger, or woken after a render) and has not been
+cancelled.  If its next step ends it, then
+* either it ended by a successful last-marked notification — it is flagged `lastSent`, and
+  `C08_latest_state_sent` says that this notification carries the latest state —,
+* or the pipe's last event is an *unsuccessful* response (a notification that is not 2.xx, be it
+  rendered or handed to `trigger`; the observer learns that its view is void),
+* or the resource's `render` raised (the suspended one that has now returned, or the one called
+  in this step); the observer gets the error response.
+So `lastSent` is not a flag that may or may not be set: a registration that ends with a 2.xx
+notification whose render did not raise is always covered by the latest-state guarantee. -/
+theorem C08_loop_end_kinds {c : State} (h : Inv c) {t : Task} (ht : t ∈ c.tasks)
+    (hp : t.phase = .waitTrig ∨ t.phase = .loopRender) (hnc : t.cancelReq = false)
+    (plan : Plan) (acc : Bool) {t' : Task}
+    (hf' : findTask (handle c (.step t.srv plan acc)).1 t.srv = some t') (hd : t'.phase = .done) :
+    t'.lastSent = true ∨
+    (∃ code body, Out.notify t.srv code none body true ∈ (handle c (.step t.srv plan acc)).2 ∧
+      success code = false) ∨
+    (∃ r, t.renderOut = some r ∧ r.exc = true) ∨ (∃ code, plan = .imm code true) := by
+  have hf := findTask_of_mem h.wf ht
+  have hself := handle_self_step hf plan acc
+  have ht' : t' = (stepTask c.value t plan acc).1 := by
+    have := hf'.symm.trans hself.2; exact Option.some.inj this
+  subst ht'
+  have htg : ∀ r, t.trig = some (some r) → r.exc = false :=
+    fun r hr => ((h.ok t ht).trigGood r hr).1
+  rcases stepTask_loop_end c.value t plan acc hp hnc htg hd with hl | ⟨code, body, hm, hs⟩ | hr
+  · exact Or.inl hl
+  · exact Or.inr (Or.inl ⟨code, body, by rw [hself.1]; exact exec_notify_mem _ _ _ _ _ _ _ hm, hs⟩)
+  · exact Or.inr (Or.inr hr)
 
 
 -- once ended: silent, callback exactly once -------------------------------------------------------------
@@ -478,26 +527,43 @@ theorem C08_count_restored {c : State} (h : Inv c) (sv : Nat) (es : List TEv)
   exact hperm.length_eq
 
 
-/-- **C08 (the ghost versions are real).** `sentVer`, used in `C08_latest_state_sent`, is not
-free-floating: whenever a step changes it, that step put a non-final notification with an Observe
-number and exactly that content version on the pipe; and every render started in a step samples
-the resource's state as it is at that step (so a render started after a change sees it). -/
+/-- **C08 (the ghost versions are real).** `sentVer` and `lastSent`, used in
+`C08_latest_state_sent`, are not free-floating.  Whenever a step of the task changes one of them,
+that step put a notification with exactly the content version `sentVer` on the pipe: a non-final
+one with an Observe number (`lastSent` unchanged), or — and only then does `lastSent` become true
+— the final one, without Observe option, marked last, with a successful code.  And every render
+started in a step samples the resource's state as it is at that step (so a render started after
+a change sees it). -/
 theorem C08_sent_version_was_notified {c : State} (h : Inv c) {t : Task} (ht : t ∈ c.tasks)
     (plan : Plan) (acc : Bool) :
     ∃ t', findTask (handle c (.step t.srv plan acc)).1 t.srv = some t' ∧
-      (t'.sentVer = t.sentVer ∨
-        ∃ code n, Out.notify t.srv code (some n) t'.sentVer false ∈ (handle c (.step t.srv plan acc)).2) ∧
+      ((t'.sentVer = t.sentVer ∧ t'.lastSent = t.lastSent) ∨
+       (t'.lastSent = t.lastSent ∧
+        ∃ code n, Out.notify t.srv code (some n) t'.sentVer false ∈ (handle c (.step t.srv plan acc)).2) ∨
+       (t'.lastSent = true ∧
+        ∃ code, success code = true ∧
+          Out.notify t.srv code none t'.sentVer true ∈ (handle c (.step t.srv plan acc)).2)) ∧
       ∀ ver, Out.render t.srv ver ∈ (handle c (.step t.srv plan acc)).2 → ver = c.value := by
   have hf := findTask_of_mem h.wf ht
   have hself := handle_self_step hf plan acc
   refine ⟨_, hself.2, ?_, ?_⟩
-  · rcases stepTask_sent c.value t plan acc with hs | ⟨code, n, hs⟩
+  · rcases stepTask_sent c.value t plan acc with hs | ⟨hl, code, n, hs⟩ | ⟨hl, code, hc, hs⟩
     · exact Or.inl hs
-    · exact Or.inr ⟨code, n, by rw [hself.1]; exact exec_notify_mem _ _ _ _ _ _ _ hs⟩
+    · exact Or.inr (Or.inl ⟨hl, code, n, by rw [hself.1]; exact exec_notify_mem _ _ _ _ _ _ _ hs⟩)
+    · exact Or.inr (Or.inr ⟨hl, code, hc, by rw [hself.1]; exact exec_notify_mem _ _ _ _ _ _ _ hs⟩)
   · intro ver hv
     rw [hself.1] at hv
     have := exec_render_inv _ _ _ _ _ hv
     exact stepTask_render c.value t plan acc ver this
+
+/-- … and no other event touches them: a datagram, a timer, an error, shutdown, a state change, a
+trigger, a deregistration, the end of a render, a step of *another* task leave `sentVer` and
+`lastSent` of registration `sv` as they are (a registration that does not exist yet counts as
+`(0, false)`, which is what a new task starts with). -/
+theorem C08_sent_version_only_moves_in_steps {c : State} (h : Inv c) (ev : Ev) (sv : Nat)
+    (hne : ∀ plan acc, ev ≠ .step sv plan acc) :
+    sentOf (handle c ev).1 sv = sentOf c sv :=
+  (Quiescent_handle h ev sv hne).sent
 
 /-
 Full statement of "no further notification is ever sent": once a registration has ended, no
